@@ -145,8 +145,9 @@ class State:
 
 
 class Bounds:
-    def __init__(self, u, f, flow, count_reg, cut=(), ptr_args=()):
+    def __init__(self, u, f, flow, count_reg, cut=(), ptr_args=(), zero_regs=()):
         self.u, self.f, self.fl, self.count_reg = u, f, flow, count_reg
+        self.zero_regs = tuple(zero_regs)    # argument registers normalised to 0 (a common additive term of every address of interest)
         self.ptr_args = tuple(ptr_args)      # argument registers that point to the start of a len-byte buffer
         self.cut = set(cut)        # instructions whose successors are not followed (analysis of the paths that avoid them)
         self.IN = {}
@@ -193,8 +194,8 @@ class Bounds:
         else:
             lo = frozenset((a[0] - b[0], a[1] - b[1]) for a in x.lo for b in y.hi)
             hi = frozenset((a[0] - b[0], a[1] - b[1]) for a in x.hi for b in y.lo)
-        lo = frozenset(v for v in lo if abs(v[1]) <= 2)
-        hi = frozenset(v for v in hi if abs(v[1]) <= 2)
+        lo = frozenset(v for v in lo if abs(v[1]) <= 512)
+        hi = frozenset(v for v in hi if abs(v[1]) <= 512)
         if len(lo) > 6:
             lo = frozenset(sorted(lo)[-6:])
         if len(hi) > 6:
@@ -313,8 +314,8 @@ class Bounds:
                     continue
                 hi = set(va.hi) | {(S[0] - l[0], S[1] - l[1]) for l in vb.lo}
                 lo = set(va.lo) | {(S[0] - u_[0], S[1] - u_[1]) for u_ in vb.hi}
-                hi = {x for x in hi if abs(x[1]) <= 2}
-                lo = {x for x in lo if abs(x[1]) <= 2}
+                hi = {x for x in hi if abs(x[1]) <= 512}
+                lo = {x for x in lo if abs(x[1]) <= 512}
                 nv = B(prune_lo(lo, st.nlo), prune_hi(hi, st.nlo), va.mod)
                 if len(nv.lo) > 6:
                     nv = B(frozenset(sorted(nv.lo)[-6:]), nv.hi, nv.mod)
@@ -494,9 +495,8 @@ class Bounds:
             _, defs = regdef.def_use(i)
             for r in defs:
                 self.setr(st, r, TOPB)
-            if mn in ('ptest', 'vptest') or mn.startswith(('kortest', 'ktest', 'comis', 'ucomis', 'vcomis', 'vucomis', 'pcmpestr', 'pcmpistr', 'vpcmpestr', 'vpcmpistr', 'vtestp')):
-                st.fl = None
-            elif mn not in ('mov', 'push', 'pop', 'lea') and not mn.startswith(('vmov', 'movdq', 'movu', 'movap', 'movnt', 'vp', 'p', 'v', 'k')):
+            import provenance
+            if provenance.writes_flags(i):
                 st.fl = None
             return
         d = g[0]
@@ -513,6 +513,15 @@ class Bounds:
                     v = st.slots.get(m['disp'] or 0, TOPB)
                     isp = ('#p', m['disp'] or 0) in st.slots
                 elif mn == 'mov' and g[1] == 64:
+                    fa = self.fl.IN.get(i.addr)
+                    if fa is not None and m['index'] in REG64 and (m['scale'] or 1) == 8 and m['base'] in REG64:
+                        bvv = fa.get(REG64[m['base']][0])
+                        if bvv is not None and bvv[0] == 'P' and bvv[1] == 'ARRAY' and (m['disp'] or 0) % 8 == 0:
+                            # ghost: minus the index of the pointer-array element just loaded (kept as a sum relation with the index register)
+                            ir = REG64[m['index']][0]
+                            self.setr(st, '#nlast', TOPB)
+                            if ir != d:
+                                st.rel[tuple(sorted(('#nlast', ir)))] = (-((m['disp'] or 0) // 8), 0)
                     nx = self.fl.IN.get(i.end)
                     fv = nx.get(d) if nx else None
                     if fv is not None and fv[0] == 'P' and fv[2] == (0, 0) and self.buffer_tag(fv):
@@ -598,6 +607,11 @@ class Bounds:
                     self.setr(st, d, TOPB)
             st.fl = None
             return
+        if mn == 'imul' and len(ops) in (2, 3) and IMM.match(ops[-1]) and imm(ops[-1]) > 0 and not is_mem(ops[1]):
+            base = self.get(st, ops[0] if len(ops) == 2 else ops[1])
+            self.setr(st, d, self.scale(base, imm(ops[-1])))
+            st.fl = None
+            return
         if mn in ('shl', 'sal') and len(ops) == 2 and IMM.match(src):
             self.setr(st, d, self.scale(self.get(st, ops[0]), 1 << imm(src)))
             st.fl = None
@@ -656,6 +670,8 @@ class Bounds:
         for r in self.ptr_args:
             st0.r[r] = EX(0, 0, (1, 0))
             st0.ptr[r] = True
+        for r in self.zero_regs:
+            st0.r[r] = EX(0, 0, (1, 0))
         self.IN = {f.entry: st0}
         # loop back edges = edges to a node that is on the depth-first stack (retreating edges)
         self.backedges = set()
@@ -767,6 +783,42 @@ class Bounds:
         if new.key() != old.key():
             self.IN[n] = new
             work.append(n)
+
+    def edge_state(self, a, succ):
+        """abstract state on the CFG edge a -> succ (after the instruction at a, refined by its branch condition)"""
+        if a not in self.IN:
+            return None
+        i = self.u.insns[a]
+        st = self.IN[a].copy()
+        self.transfer(st, i)
+        if is_cond_jump(i.mn):
+            taken = succ == i.target
+            if i.target == i.end:
+                return st
+            st = self.refine(st, i.mn[1:], taken)
+        self.close(st)
+        return st
+
+    def loops(self):
+        """[(header, body set)] natural loops of the function from the back edges found by run()"""
+        preds = {}
+        for a in self.f.addrs:
+            for n in self.u.succ(self.f, a):
+                preds.setdefault(n, []).append(a)
+        out = {}
+        for s_, h in self.backedges:
+            body = {h, s_}
+            work = [s_]
+            while work:
+                x = work.pop()
+                if x == h:
+                    continue
+                for p_ in preds.get(x, []):
+                    if p_ not in body:
+                        body.add(p_)
+                        work.append(p_)
+            out.setdefault(h, set()).update(body)
+        return sorted(out.items())
 
     # ---------------------------------------------------------------- verdicts
     def offset_bounds(self, a, acc):
@@ -945,3 +997,46 @@ def check(rep, families, suffix, floor):
 
 def fmt(s):
     return ', '.join('%d%s' % (c, {0: '', 1: '+len', -1: '-len'}.get(k, '%+d*len' % k)) for c, k in sorted(s))
+
+
+def check_src_cover(rep, floor):
+    """R-SRC-COVER: RAID kernels walk the source pointers from the last one down; every innermost loop that loads source pointers
+    from the array must have loaded array[0] last when it exits (ghost register = index of the last element loaded)."""
+    import provenance
+    R = rep.rule('R-SRC-COVER', 'RAID asm kernels: every innermost loop that fetches source pointers array[i] with a decreasing index leaves, on each of its exit edges, with array[0] as the last element fetched '
+                 '(abstract interpretation of the index register with a ghost variable for the last fetched index, exact on the exit edge): no source block is left out of the parity', floor=floor, unit='loops')
+    res, _ = provenance.analyse('default')
+    for sym, info in sorted(res.items()):
+        if not info['fam']['family'].startswith('raid_'):
+            continue
+        u, f = info['unit'], info['func']
+        bd = Bounds(u, f, info['flow'], 'rsi')
+        bd.run()
+        loops = bd.loops()
+        heads = {h for h, _ in loops}
+        for h, body in loops:
+            if any(h2 in body for h2 in heads if h2 != h):
+                continue
+            lds = []
+            for a in sorted(body):
+                i = u.insns[a]
+                if i.mn == 'mov' and len(i.ops) == 2 and is_mem(i.ops[1]) and i.ops[0] in REG64:
+                    m = parse_mem(i.ops[1])
+                    fa = info['flow'].IN.get(a)
+                    bv = fa.get(REG64[m['base']][0]) if fa is not None and m['base'] in REG64 else None
+                    if m['index'] in REG64 and (m['scale'] or 1) == 8 and bv is not None and bv[0] == 'P' and bv[1] == 'ARRAY':
+                        lds.append(i)
+            if not lds:
+                continue
+            R.instance()
+            for a in sorted(body):
+                for sx in u.succ(f, a):
+                    if sx in body:
+                        continue
+                    st = bd.edge_state(a, sx)
+                    g = st.r.get('#nlast', TOPB) if st else TOPB
+                    e = g.exact()
+                    R.check(e == (0, 0), '%s: %s' % (u.name, u.where(u.insns[a], f)), 'the loop fetching source pointers at %s exits here with array[%s] as the last element fetched; it must be array[0] - the blocks below that index are not folded into the parity'
+                            % (u.where(lds[0], f), ('%d' % -e[0]) if e is not None and e[1] == 0 else 'an index in [%s, %s]' % (', '.join('%d' % -x[0] for x in sorted(g.hi) if x[1] == 0) or '?', ', '.join('%d' % -x[0] for x in sorted(g.lo) if x[1] == 0) or '?')),
+                            key='R-SRC-COVER|%s|%#x' % (sym, h - f.entry), sample='%s loop@+%#x: exits after fetching array[0]' % (sym, h - f.entry) if sym.endswith('_avx') else None)
+    return R
